@@ -385,7 +385,7 @@ def shards(tier):
 def run_shard(spec, ctx):
     s = strategies(ctx.tier)
     rec = core.Rec()
-    sizes = {"a": ctx.pick(450, 6000), "b": ctx.pick(1200, 17000), "c": ctx.pick(800, 11500), "d": ctx.pick(400, 5700), "e": ctx.pick(22, 310)}
+    sizes = {"a": ctx.pick(350, 5000), "b": ctx.pick(1200, 17000), "c": ctx.pick(800, 11500), "d": ctx.pick(400, 5700), "e": ctx.pick(22, 310)}
     for k in "abcde":
         skel.hyp_chunks(s[k], check_case, ctx, sizes[k], rec, k, chunk=3000)
         if rec.violations:
